@@ -25,6 +25,12 @@ RULE = (
 RULE += (
     ' Added after seeded round 9: 11-16 slab directories loaded in chunks; the last three objects kept alive and every array of theirs (host indices included) re-compared after each later construction.'
 )
+RULE += (
+    ' Added after seeded round 10: several AbacusHOD objects constructed in one process over the SAME simulation directory, redshift and chunk, each selecting another file family '
+    '(plain / _MT via the tracer set or force_mt, with / without _withranks via want_ranks) whose files hold equal total (and, in half of the groups, equal per-slab) halo and particle counts '
+    'but other ids / slab order / particle hosts, visited in a random order, the first family visited again at the end and the same chunk of every family staged in turn; '
+    'every object compared with ITS OWN files (hid[pinds]==phid, every column), never with an earlier object.'
+)
 ASSUMPTIONS = ['z_mock=0.5 (a "primary" redshift, particles loaded) for 9 of 11 cases; every 11th case a secondary redshift (0.575/0.45/1.625: halo files only) and every 11th one with particle files that hold no particle; at least one halo per staged chunk (the constructor takes min/max of the masses)']
 
 MPART = 2.0e9
@@ -40,11 +46,14 @@ def fh(h, col, comp=0):
     return (np.asarray(h, dtype=np.float64) * 37.0 + base * 1000003.0 + comp * 0.25) / 1024.0
 
 
-def make_dir(rng, nslab, order, want_ranks, mt, halos_per_slab, scalar_vdev=False, physical=False, idbase=0, z=0.5, no_particles=False, lc=False, short_ranks=False, zero_r25=False):
-    root = tempfile.mkdtemp(prefix='verif_hod_')
+def make_dir(rng, nslab, order, want_ranks, mt, halos_per_slab, scalar_vdev=False, physical=False, idbase=0, z=0.5, no_particles=False, lc=False, short_ranks=False, zero_r25=False, root=None, parts_per_slab=None):
+    # root: write this file family into an existing directory tree (next to the families already there);
+    # parts_per_slab: fixed particle counts per slab instead of drawn ones (both additive: the defaults leave every draw as it was)
+    if root is None:
+        root = tempfile.mkdtemp(prefix='verif_hod_')
     sim = 'SimH'
     hdir = os.path.join(root, 'sims', sim, 'halos', 'z%4.3f' % z, 'halo_info')
-    os.makedirs(hdir)
+    os.makedirs(hdir, exist_ok=True)
     header = dict(H0=67.0, BoxSize=2000.0, ParticleMassHMsun=MPART, VelZSpace_to_kms=1.3e5, SimName=sim)
     for s in range(nslab):
         write_asdf(os.path.join(hdir, f'halo_info_{s:03d}.asdf'), dict(header=header, data=dict(id=np.zeros(1, dtype=np.uint64))))
@@ -55,7 +64,7 @@ def make_dir(rng, nslab, order, want_ranks, mt, halos_per_slab, scalar_vdev=Fals
         os.makedirs(lcdir, exist_ok=True)
         write_asdf(os.path.join(lcdir, 'lc_halo_info.asdf'), dict(header=dict(header, LightConeOrigins=[-990.0, -990.0, -990.0, -990.0, -990.0, -2990.0]), data=dict(id=np.zeros(1, dtype=np.uint64))))
     sub = os.path.join(root, 'subs', sim, 'z%4.3f' % z)
-    os.makedirs(sub)
+    os.makedirs(sub, exist_ok=True)
     import h5py
 
     Htot = sum(halos_per_slab)
@@ -123,7 +132,10 @@ def make_dir(rng, nslab, order, want_ranks, mt, halos_per_slab, scalar_vdev=Fals
                 h['x_L2com'][:, c] = ((hid * (0.1234 + 0.1 * c)) % 1.0) * 1900.0 - 950.0
                 h['v_L2com'][:, c] = ((hid * (0.4321 + 0.1 * c)) % 1.0) * 800.0 - 400.0
                 h['randoms_gaus_vrms'][:, c] = ((hid * (0.777 + 0.1 * c)) % 1.0) * 300.0 - 150.0
-        P = int(rng.integers(0, 4 * max(H, 1))) if H else 0
+        if parts_per_slab is not None:
+            P = int(parts_per_slab[s]) if H else 0
+        else:
+            P = int(rng.integers(0, 4 * max(H, 1))) if H else 0
         if no_particles:
             P = 0
         p = np.zeros(P, dtype=pdt)
@@ -426,6 +438,126 @@ def check(run):
             shutil.rmtree(truth['root'], ignore_errors=True)
         if run.too_many():
             return
+    # appended after all the single-directory cases (own random stream): objects over one directory, different file families
+    check_file_families(run, AH)
+
+
+class _LaterObjectRun:
+    """The run as seen by the staging of a LATER object over a directory that other objects were staged from in this process:
+    any discrepancy with the object's own files is reported under one mechanism, with the failed comparison and the earlier constructions
+    in the witness (a mechanism already listed as known keeps its own name)."""
+
+    def __init__(self, run, earlier):
+        self._run, self._earlier = run, earlier
+
+    def __getattr__(self, name):
+        return getattr(self._run, name)
+
+    def violation(self, key, witness):
+        if key in self._run.known.get(self._run.pid, {}) or key == 'staging-earlier-object-changed':
+            return self._run.violation(key, witness)
+        return self._run.violation('staging-differs-from-own-files-after-earlier-object-on-same-directory', dict(failed_comparison=key, earlier_objects_on_this_directory=list(self._earlier), **witness))
+
+
+def _composition(rng, total, parts):
+    """total split into `parts` positive integers."""
+    cuts = np.sort(rng.choice(np.arange(1, total), parts - 1, replace=False)) if parts > 1 else np.array([], dtype=int)
+    return [int(x) for x in np.diff(np.concatenate([[0], cuts, [total]]))]
+
+
+def check_file_families(run, AH):
+    """Several objects in one process over ONE simulation directory / redshift, each selecting another file family
+    ({plain, _MT} x {without, with ranks}) of equal total halo and particle counts but other ids, order and particle hosts.
+    What an object holds is a function of the files its own options select: each is compared with those files."""
+    rng = run.rng(1)
+    ngroup = 6 if run.quick else 60
+    case = 100001  # odd case numbers: the histogram stub is always in place
+    for g in range(ngroup):
+        nslab = int(rng.integers(2, 6))
+        same_per_slab = g % 2 == 0  # equal counts slab by slab (so every chunk of the families has equal totals too), or equal totals only
+        S = int(rng.integers(3, 25))
+        hps0 = [S] * nslab if g % 3 == 0 else [int(rng.integers(2, 30)) for _ in range(nslab)]
+        Htot = sum(hps0)
+        pps0 = [int(rng.integers(1, 3 * h + 2)) for h in hps0]
+        Ptot = sum(pps0)
+        fams = [(False, False), (True, False), (False, True), (True, True)]  # (_MT, _withranks)
+        fams = [fams[i] for i in rng.permutation(4)[: int(rng.integers(2, 5))]]
+        if not any(f[0] for f in fams[:2]) and not any(f[1] for f in fams[:2]):
+            fams[1] = (True, fams[1][1])
+        orders = ['interleaved', 'decreasing', 'random', 'increasing'] + (['decreasing_slabs'] if g % 3 == 0 else [])
+        root = None
+        truths = []
+        halo_files = {}  # the halo files carry no _withranks tag: the two particle families of one tag belong to the same halo files
+        try:
+            import h5py
+
+            for j, (mt, ranks) in enumerate(fams):
+                order = orders[int(rng.integers(0, len(orders)))] if j else 'increasing'  # the first family sorted (as shipped files are), the later ones not
+                if same_per_slab and order == 'interleaved':
+                    order = 'random'  # interleaving fixes the slab sizes itself
+                hps = list(hps0) if (same_per_slab or order == 'decreasing_slabs') else _composition(rng, Htot, nslab)
+                pps = list(pps0) if same_per_slab else _composition(rng, Ptot, nslab)
+                sibling = halo_files.get(mt)
+                if sibling is None:
+                    halo_files[mt] = (rng.bit_generator.state, order, hps)
+                    t = make_dir(rng, nslab, order, ranks, mt, hps, root=root, parts_per_slab=pps)
+                else:
+                    # same halo files (same ids in the same order: the generator is put back where the sibling started), other particle files
+                    rng2 = np.random.default_rng(0)
+                    rng2.bit_generator.state = sibling[0]
+                    order, hps = sibling[1], sibling[2]
+                    t = make_dir(rng2, nslab, order, ranks, mt, hps, root=root, parts_per_slab=pps)
+                    sib = next(t2 for t2 in truths if t2['mt'] == mt)
+                    assert all(np.array_equal(a['h'], b['h']) for a, b in zip(t['slabs'], sib['slabs']))
+                    for si, sl in enumerate(t['slabs']):
+                        # other particles in another order than the sibling's file
+                        sl['p'] = sl['p'][rng.permutation(len(sl['p']))]
+                        host = rng.choice(sl['h']['id'], len(sl['p']))
+                        sl['p']['halo_id'] = host
+                        for c in range(3):
+                            sl['p']['halo_vel'][:, c] = fh(host, 'v', c)
+                        sl['p']['halo_mass'] = ((host % 100000) + 50) * 1.0
+                        sl['p']['halo_deltac'], sl['p']['halo_fenv'], sl['p']['halo_shear'] = fh(host, 'dc'), fh(host, 'fe'), fh(host, 'sh')
+                        pf = os.path.join(t['subsample_dir'], t['sim'], 'z0.500', f'particles_xcom_{si}_seed600_abacushod_oldfenv' + ('_MT' if mt else '') + ('_withranks' if ranks else '') + '_new.h5')
+                        assert os.path.exists(pf)
+                        with h5py.File(pf, 'w') as f:
+                            f.create_dataset('particles', data=sl['p'])
+                root = t['root']
+                t.update(mt=mt, ranks=ranks, order=order, parts_per_slab=pps)
+                truths.append(t)
+            assert len({sum(len(s['h']) for s in t['slabs']) for t in truths}) == 1 and len({sum(len(s['p']) for s in t['slabs']) for t in truths}) == 1
+            visits = [(j, -1, 1) for j in rng.permutation(len(truths))]
+            visits.append(visits[0])  # back to the first family
+            n_jump = int(np.ceil(nslab / 2))
+            ch = int(rng.integers(0, 2))
+            if ch * n_jump < nslab:
+                visits += [(j, ch, 2) for j in rng.permutation(len(truths))]  # the same chunk of every family
+            earlier = []
+            for j, chunk, nch in visits:
+                t = truths[int(j)]
+                flags = dict(want_AB=bool(rng.integers(0, 2)), want_shear=bool(rng.integers(0, 2)), want_ranks=t['ranks'], want_expvel=bool(rng.integers(0, 2)))
+                force_mt = False
+                if t['mt']:
+                    tracers = [('LRG', 'ELG'), ('ELG',), ('QSO',), ('LRG', 'ELG', 'QSO'), ('LRG',)][int(rng.integers(0, 5))]
+                    force_mt = tracers == ('LRG',)
+                else:
+                    tracers = ('LRG',)
+                desc = dict(case=case, file_family_group=g, families_in_directory=[dict(MT=t2['mt'], withranks=t2['ranks'], order=t2['order'], halos_per_slab=t2['halos_per_slab'], parts_per_slab=t2['parts_per_slab']) for t2 in truths], nslab=nslab, order=t['order'], halos_per_slab=t['halos_per_slab'], chunk=chunk, n_chunks=nch, tracers=list(tracers), scalar_vdev=False, z_mock=0.5, force_mt=force_mt, log_level='off', **flags)
+                case += 2
+                if g == 0 and len(earlier) < 2:
+                    run.sample(desc)
+                _IDBASE[0] = 0
+                stage_and_check(_LaterObjectRun(run, earlier) if earlier else run, AH, t, flags, tracers, chunk, nch, desc)
+                if earlier:
+                    run.count('objects_staged_after_another_file_family_of_the_same_directory')
+                    if any((e['MT'], e['withranks']) != (t['mt'], t['ranks']) and (e['chunk'], e['n_chunks']) == (chunk, nch) for e in earlier):
+                        run.nt(('after-other-family', nslab, t['order'], t['mt'], t['ranks'], chunk, nch, same_per_slab, len(earlier)))
+                earlier.append(dict(MT=t['mt'], withranks=t['ranks'], tracers=list(tracers), force_mt=force_mt, chunk=chunk, n_chunks=nch, want_ranks=t['ranks']))
+                if run.too_many():
+                    return
+        finally:
+            if root:
+                shutil.rmtree(root, ignore_errors=True)
 
 
 def replay(run, data):
